@@ -60,6 +60,8 @@ func contentByCode(l wsp.Layout, now int64, ch []SlotChoice, code []int) []wsp.R
 				r[i][cls] = wsp.Slot{T: uint32(t), V: c.V}
 			case "stale":
 				r[i][cls] = wsp.Slot{T: uint32(t - a.Ret()), V: c.V}
+			case "newer":
+				r[i][cls] = wsp.Slot{T: uint32(t + a.Ret()), V: c.V}
 			}
 		}
 	}
